@@ -75,9 +75,11 @@ def kid_wants(shape, want):
 
 
 def culprit(shape, want, mode):
-    """The innermost value that, bound on its own, is already not the expected term (diagnostics / signature only)."""
+    """The innermost value that, bound on its own, is already not the expected term (diagnostics / signature only).
+    User subclasses are replaced by their base types here, so that the subclass defect (which has its own
+    signature) does not hide where another defect sits."""
     for kid, kw in kid_wants(shape, want):
-        out, err = bind(kid, mode)
+        out, err = bind(kid, mode, base=True)
         if err is not None or not cqllex.mirror_term_accepts(kw, out):
             return culprit(kid, kw, mode)
     return shape
